@@ -17,7 +17,7 @@
    The codec (compressor + numpy buffer) is any enc / dec with dec k (enc k rows) = Some rows. *)
 From SV Require Import Model.Rows Model.SplitArray Model.Chunk Model.Rechunker Model.CopyRechunk
      Proof.RechunkerProof Proof.RechunkerStrong Proof.CopyRechunkProof Proof.OnLoadProof Proof.PerChunkProof
-     Proof.KeyTagProof Proof.C16Examples.
+     Proof.KeyTagProof Proof.C16Examples Model.C16Run.
 
 (* Context.copy_to_frontend: any compressor, rechunk on/off, any positive target.  The call succeeds; after
    every atomic step the source directory is unchanged and the destination path holds nothing or the
@@ -148,6 +148,55 @@ Theorem C16_job_keys_distinct :
     key (Some g1) = key (Some g2) -> i = j.
 Proof. exact job_keys_distinct. Qed.
 Print Assumptions C16_job_keys_distinct.
+
+(* ---------------------------------------------------------------------------------------------------
+   Statements the faithful model refutes (findings on the real code, replayed by the harness units
+   rechunker_same_dir and merge_hole; see design_notes/C16.md).
+
+   "replace = false leaves the source intact" without the side condition src <> dst of
+   C16_rechunker_preserves (which is the proved part): *)
+Definition C16_full_rechunker_source_intact : Prop :=
+  forall (bytes : Type) (enc : Z -> list row -> bytes) (dec : Z -> bytes -> option (list row)),
+  (forall k rs, dec k (enc k rs) = Some rs) ->
+  forall (fs : fsys bytes) src dst tmp comp tgt rechunk s cs,
+  src <> tmp -> dst <> tmp -> lookup src fs = Some s -> good dec s cs -> (forall t, tgt = Some t -> 0 < t) ->
+  Forall (fun fs' => lookup src fs' = Some s) (fst (rechunker_run enc dec fs src dst tmp false comp tgt rechunk)).
+
+Theorem C16_rechunker_source_intact_partial :
+  forall (bytes : Type) (enc : Z -> list row -> bytes) (dec : Z -> bytes -> option (list row)),
+  (forall k rs, dec k (enc k rs) = Some rs) ->
+  forall (fs : fsys bytes) src dst tmp comp tgt rechunk s cs,
+  src <> dst -> src <> tmp -> dst <> tmp -> lookup src fs = Some s -> good dec s cs ->
+  (forall t, tgt = Some t -> 0 < t) ->
+  Forall (fun fs' => lookup src fs' = Some s) (fst (rechunker_run enc dec fs src dst tmp false comp tgt rechunk)).
+Proof. exact (@rechunker_source_intact). Qed.
+Print Assumptions C16_rechunker_source_intact_partial.
+
+(* a destination that resolves to the source directory itself: the source is removed before it is read *)
+Theorem C16_rechunker_same_dir_refuted :
+  exists (fs : fsys C16Run.tbytes) src tmp s cs,
+    src <> tmp /\ lookup src fs = Some s /\ good C16Run.tdec s cs /\
+    let '(tr, r) := rechunker_run C16Run.tenc C16Run.tdec fs src src tmp false None None true in
+    r = Err E_NO_CHUNKS /\ visible (last tr fs) src = false /\
+    ~ Forall (fun fs' => lookup src fs' = Some s) tr.
+Proof. exact rechunker_same_dir_witness. Qed.
+Print Assumptions C16_rechunker_same_dir_refuted.
+
+(* "the merged data goes under the ordinary key only if all chunks of the dependency took part" *)
+Definition C16_full_merge_tag_complete : Prop :=
+  forall ndep groups, merge_tag ndep groups = Ok None -> forall i, (i < ndep)%nat -> In i (concat groups).
+
+Theorem C16_merge_tag_complete_partial :
+  forall ns, Forall (fun n => (0 < n)%nat) ns -> ns <> [] ->
+  merge_tag (list_sum ns) (groups_of 0 ns) = Ok None /\
+  forall i, (i < list_sum ns)%nat -> In i (concat (groups_of 0 ns)).
+Proof. exact merge_tag_complete_groupings. Qed.
+Print Assumptions C16_merge_tag_complete_partial.
+
+Theorem C16_merge_tag_complete_refuted :
+  exists ndep groups i, merge_tag ndep groups = Ok None /\ (i < ndep)%nat /\ ~ In i (concat groups).
+Proof. exact merge_hole_witness. Qed.
+Print Assumptions C16_merge_tag_complete_refuted.
 
 (* stored layouts exist: what a saver leaves for any valid stream (rechunking or not) is `good` and consistent *)
 Theorem C16_save_good :
